@@ -93,6 +93,11 @@ pub uninterp spec fn cast32(p: super::na::Isometry3) -> Iso32;
 pub fn cast_poses(p: [super::na::Isometry3; 6]) -> (r: [Iso32; 6])
     ensures forall|k: int| 0 <= k < 6 ==> #[trigger] r[k] == cast32(p[k]) { unimplemented!() }
 
+/// `pose.cast()` (nalgebra `Isometry3::<f64>::cast::<f32>()`): the f32 pose is a function of the f64 pose
+impl super::na::Isometry3 {
+    #[verifier::external_body]
+    pub fn cast(&self) -> (r: Iso32) ensures r == cast32(*self) { unimplemented!() }
+}
 /// `(0..n).collect::<HashSet<usize>>()` (rule S routes it here)
 #[verifier::external_body]
 pub fn range_set(n: usize) -> (r: std::collections::HashSet<usize>)
